@@ -1009,6 +1009,9 @@ var engineCorpus = []corpusCase{
 		fn: map[string][]eFres{"aa": st1("one\ntwo\nthree\nfour\nfive\nsix")}, cfg: eCfg{FlagCount: 1, Out: 30}, inputs: []string{"", "11", "11", "22", "22"}},
 	{name: "reset-on-empty-at-entry-page", nodes: [][3]string{{"root", "LOAD aa 0; MAP aa; MNEXT nxt 11; MPREV prv 22; HALT; INCMP > 11; INCMP < 22; INCMP foo *", "r {{.aa}}"}, {"foo", "HALT; INCMP _ 0", "foo"}, {"_catch", "MOUT back 0; HALT; INCMP _ 0", "catch"}},
 		fn: map[string][]eFres{"aa": st1("one\ntwo\nthree\nfour\nfive\nsix")}, cfg: eCfg{FlagCount: 1, Out: 30, ResetEmpty: true}, inputs: []string{"", "11", "11", "", "11", " ", "x"}},
+	{name: "reserved-tamper", nodes: [][3]string{{"root", "LOAD aa 0; HALT; INCMP foo 1; INCMP bar 2", "root"}, {"foo", "LOAD bb 0; MAP bb; HALT; INCMP _ 0", "foo {{.bb}}"}, {"bar", "LOAD cc 0; HALT; INCMP _ 0", "bar"}, {"_catch", "HALT; INCMP _ *", "catch"}},
+		fn:  map[string][]eFres{"aa": []eFres{{Content: "a", Set: []uint32{0, 1, 2, 3, 4, 5, 8}}}, "bb": []eFres{{Content: "b", Reset: []uint32{0, 1, 2, 3, 4, 5}}}, "cc": []eFres{{Content: "c", Set: []uint32{5, 3}, Reset: []uint32{4, 1, 8}}}},
+		cfg: eCfg{FlagCount: 2}, inputs: []string{"", "1", "0", "2", "x", "0"}},
 	{name: "abnormal-end", nodes: [][3]string{{"root", "HALT; INCMP foo 1", "root"}, {"foo", "LOAD aa 10", "foo"}, {"_catch", "HALT; INCMP _ *", "catch"}},
 		fn: map[string][]eFres{"aa": st1("v")}, cfg: eCfg{FlagCount: 2}, inputs: []string{"", "1", "", "1"}},
 	{name: "browse-past-end", nodes: [][3]string{{"root", "LOAD aa 0; MAP aa; MNEXT nxt 11; MPREV prv 22; HALT; INCMP > 11; INCMP < 22", "r {{.aa}}"}, {"_catch", "MOUT back 0; HALT; INCMP _ 0", "catch"}},
@@ -1185,6 +1188,51 @@ func c17Case(idx int, kind string, g genOut, inputs [][]byte) (hx.Case, []eStep,
 	return c1, st1, nil
 }
 
+// C06: every history is served a second time by the application whose functions do not ask for
+// reserved flags (indices up to FLAG_RESERVED removed from every FlagSet / FlagReset)
+func stripReserved(fs []eFres) []eFres {
+	keep := func(l []uint32) []uint32 {
+		var r []uint32
+		for _, f := range l {
+			if f > state.FLAG_RESERVED {
+				r = append(r, f)
+			}
+		}
+		return r
+	}
+	out := make([]eFres, len(fs))
+	for i, f := range fs {
+		f.Set, f.Reset = keep(f.Set), keep(f.Reset)
+		out[i] = f
+	}
+	return out
+}
+
+func c06Case(idx int, kind string, g genOut, inputs [][]byte) (hx.Case, []eStep, error) {
+	c1, st1, err := engineCase(idx, kind, g, inputs)
+	if err != nil {
+		return c1, nil, err
+	}
+	a2 := *g.app
+	a2.Fn = map[string][]eFres{}
+	for k, v := range g.app.Fn {
+		a2.Fn[k] = stripReserved(v)
+	}
+	cfg2 := *g.cfg
+	if cfg2.First != nil {
+		cfg2.First = stripReserved(cfg2.First)
+	}
+	g2 := g
+	g2.app, g2.cfg = &a2, &cfg2
+	c2, _, err := engineCase(idx, kind, g2, inputs)
+	if err != nil {
+		return c1, nil, err
+	}
+	c1.Term = fmt.Sprintf("(mkE17 %s %s)", c1.Term, c2.Term)
+	c1.Desc.(map[string]interface{})["without_reserved_requests"] = c2.Desc
+	return c1, st1, nil
+}
+
 func runEngine(o opts) error {
 	mkCase := engineCase
 	w := &hx.Writer{Dir: o.out, Prop: o.prop, Imports: "Bytes Errors Consts Codec CacheModel StateModel NavModel RenderModel VmModel EngineModel CorrBase EngineCorr EngineMon",
@@ -1192,6 +1240,10 @@ func runEngine(o opts) error {
 	if o.prop == "C17" {
 		mkCase = c17Case
 		w.CaseType, w.Mism, w.Viol, w.PerShard = "ecase17", "engine_mismatches17", "engine_violations_c17x", 12
+	}
+	if o.prop == "C06" {
+		mkCase = c06Case
+		w.CaseType, w.Mism, w.Viol, w.PerShard = "ecase17", "engine_mismatches17", "engine_violations_c06x", 12
 	}
 	for i, cc := range engineCorpus {
 		g, inputs := cc.build()
